@@ -243,3 +243,9 @@ Example C02_ex_network_error :
   Network.n_out pkt (Network.run pkt join dropped 3 ls) = [(0, Pk (PErr [5%Z]))] /\
   Network.n_done pkt (Network.run pkt join dropped 3 ls) 0 = [0].
 Proof. split; [repeat constructor|]. vm_compute. split; reflexivity. Qed.
+
+(* non-vacuity for C02_network_no_deadlock: a reachable state with something pending meets its hypotheses *)
+Example C02_ex_network_busy :
+  let st := Network.run nat (fun l => fold_right Nat.add 0 l) 999 4 [Network.LIn nat 0; Network.LProc nat 0 100 [1; 2]] in
+  Network.Inv nat (fun l => fold_right Nat.add 0 l) 999 4 st /\ Network.busy nat st.
+Proof. split; [apply Network.run_inv|]. exists 0. vm_compute. discriminate. Qed.
